@@ -29,8 +29,11 @@ const pullStream = "c13pull"
 
 // waitPullOver: the hostile server has been served (lal closed its side of every connection).
 func waitPullOver(s *inproc.Server, hs *hostileServer, n int, marker, what string) *pbt.Violation {
+	if v := statSnapshot(s, pullStream, "c13feed"); v != nil { // the client session is somewhere in the hostile script
+		return v
+	}
 	if hs.waitServed(n, 10*time.Second) {
-		return nil
+		return statSnapshot(s, pullStream, "c13feed")
 	}
 	// the upstream server sent EOF 10 s ago and lal still holds the connection.  A read loop that burns CPU in the
 	// same function over another 8 s although its input ended is not a slow machine.
@@ -66,7 +69,8 @@ func startPull(s *inproc.Server, url string, rtspMode int) *pbt.Violation {
 	if resp.ErrorCode != base.ErrorCodeSucc {
 		lalclient.Harness("c13: CtrlStartRelayPull(%s) refused: %+v", url, resp)
 	}
-	return nil
+	// statistics while the pull session is connecting / half-way through its handshake
+	return statSnapshot(s, pullStream)
 }
 
 // ===== lal as RTMP client ==============================================================
@@ -420,17 +424,17 @@ type RtspSrvStep struct {
 
 type RtspSrvCase struct {
 	// Stage reached by the valid responses: none | options | described | setup | playing
-	Stage        string        `json:"stage"`
-	Video        string        `json:"video"`
-	Audio        string        `json:"audio"`
-	Udp          bool          `json:"udp,omitempty"`           // lal asks for UDP transport (rtsp_mode 1)
-	GetParameter bool          `json:"get_parameter,omitempty"` // OPTIONS advertises GET_PARAMETER (lal then keeps the session alive with it)
+	Stage        string `json:"stage"`
+	Video        string `json:"video"`
+	Audio        string `json:"audio"`
+	Udp          bool   `json:"udp,omitempty"`           // lal asks for UDP transport (rtsp_mode 1)
+	GetParameter bool   `json:"get_parameter,omitempty"` // OPTIONS advertises GET_PARAMETER (lal then keeps the session alive with it)
 	// PrefixSdp: the valid DESCRIBE response carries this hostile-but-accepted description (genAcceptedSdp) instead of
 	// the reference one; the interleaved RTP that follows matches it
-	PrefixSdp *Sdp `json:"prefix_sdp,omitempty"`
-	Steps        []RtspSrvStep `json:"steps"`
-	Mut          Mut           `json:"mut"`
-	Slices       []int         `json:"slices,omitempty"`
+	PrefixSdp *Sdp          `json:"prefix_sdp,omitempty"`
+	Steps     []RtspSrvStep `json:"steps"`
+	Mut       Mut           `json:"mut"`
+	Slices    []int         `json:"slices,omitempty"`
 }
 
 // lal's client sets up the video track first, then the audio track, whatever their order in the description, and
